@@ -46,6 +46,8 @@ impl Property for C13 {
         w.squeeze = 5;
         w.liq_weakest = 6;
         w.ecfg = 2;
+        // a trader withdraws the engine's cw20 allowance (and grants it again): operations that pull nothing must not care
+        w.allowance = 3;
         hist_strategy(&p, &w, 4, tier.pick(35, 80))
     }
     fn cases(&self, tier: Tier) -> u32 {
@@ -80,6 +82,8 @@ impl Property for C13 {
         let mut trace = vec![];
         let mut interesting = 0u64;
         let fees_on = c.cfg.vamms.iter().any(|v| v.toll > 0 || v.spread > 0);
+        // traders whose cw20 allowance for the engine is currently withdrawn (harness model of the Allowance ops)
+        let mut revoked = [false; N_TRADERS];
         for (i, op) in c.ops.iter().enumerate() {
             let act = ic.resolve(op, &pre_c);
             // the twin runner executes exactly one action per op: follow-ups queued by directed ops are dropped
@@ -88,7 +92,35 @@ impl Property for C13 {
                 continue;
             }
             let sender = ic.sender_of(&act);
+            // would this operation pull collateral from its sender in the cw20 twin? (only asked while the sender's allowance is
+            // withdrawn: a pull then fails in the cw20 twin for a reason the native twin cannot have)
+            let sender_idx = ic.w.traders.iter().position(|t| *t == sender);
+            let may_pull = match &act {
+                Act::Open { t, v, buy, margin, lev, .. } => ic.expected_pull(&pre_c, *t, *v, *buy, *margin, *lev) > 0,
+                Act::Deposit { amount, .. } => *amount > 0,
+                Act::Close { v, .. } => {
+                    let vc = &pre_c.v[*v].cfg;
+                    !vc.toll_ratio.is_zero() || !vc.spread_ratio.is_zero()
+                }
+                _ => false,
+            };
             let rc = ic.exec_act(&act);
+            if let Act::Allowance { t, grant } = &act {
+                if rc.ok {
+                    revoked[*t] = !*grant;
+                }
+                out.count("allowance_ops");
+                pre_c = observe(&ic.w);
+                continue;
+            }
+            if sender_idx.map(|k| revoked[k]).unwrap_or(false) {
+                if may_pull {
+                    // incomparable: the cw20 twin cannot pull, the native twin has nothing like an allowance
+                    out.count("pull_with_withdrawn_allowance_history_truncated");
+                    break;
+                }
+                out.count("non_pulling_ops_with_withdrawn_allowance");
+            }
             let pulled: u128 = if rc.ok { rc.xfers.iter().filter(|x| x.kind == "transfer_from" && x.from == sender).map(|x| x.amount).sum() } else { 0 };
             // the same concrete action on the native twin, attaching what the cw20 twin pulled
             let act_n = match &act {
